@@ -445,12 +445,6 @@ End Mass.
 
 Local Close Scope Q_scope.
 
-Lemma all_true_nth l n : all_true l = true -> n < length l -> nth n l false = true.
-Proof.
-  revert n; induction l as [|b l IH]; intros n H Hn; [cbn in Hn; lia|].
-  cbn in H. apply andb_true_iff in H as [Hb Hl]. destruct n; [exact Hb|]. apply IH; [exact Hl|cbn in Hn; lia].
-Qed.
-
 Lemma first_eos_nth e : forall s i, first_eos e s = Some i -> nth i s 0%Z = e.
 Proof.
   induction s as [|k t IH]; intros i H; [discriminate|]. cbn in H.
